@@ -318,6 +318,9 @@ struct pool_policy
         if (t.up_allocs == 0 && after.cap != before.cap)
             t.fail("M-counters", "capacity-changed-by-failed-alloc",
                    fmt("failed allocation changed the list capacity from %zu to %zu", before.cap, after.cap));
+        if (t.up_allocs == 0 && after.nextcap != before.nextcap)
+            t.fail("M-counters", "next-capacity-changed-by-failed-alloc",
+                   fmt("next_capacity() went from %zu to %zu across a request that failed and obtained no block", before.nextcap, after.nextcap));
         if (r.is_try && r.kind == 0 && !before.list_empty && r.size <= before.max_node && r.align <= before.max_align)
             t.fail("M-try", "try-null-with-free-node", "try_allocate_node returned null although the free list held a node");
     }
